@@ -253,6 +253,11 @@ type runner struct {
 	probeOutcome string // "" none | panicked | silent
 	probeParked  bool   // requests were parked when the probe was issued
 	ended        bool   // the run cannot continue (the probe panicked: hive.go leaves the mutex' internal lock held)
+	// afterPanic: a mismatched unlock has panicked. hive.go panics with the entity mutex' internal lock held, so requests on
+	// that entity can never complete any more (also on the unchanged tree): the rest of the script continues in
+	// safety-only mode - nothing conflicting may be GRANTED while the real holders are still inside.
+	afterPanic bool
+	stuck      map[int]bool // actors whose release call is parked for ever (they still hold in the model)
 }
 
 type finding struct{ FP, What string }
@@ -293,7 +298,14 @@ func (r *runner) viol(fp, f string, a ...any) {
 func (r *runner) options() []int {
 	var o []int
 	for a := range r.actors {
-		if _, p := r.m.parked[a]; !p && r.pc[a] < len(r.cfg.Programs[a]) {
+		if _, p := r.m.parked[a]; !p && !r.stuck[a] && r.pc[a] < len(r.cfg.Programs[a]) {
+			if r.afterPanic {
+				// the holders stay inside (their releases would park on the poisoned entity); only up to three
+				// further NEW requests are issued
+				if k := r.cfg.Programs[a][r.pc[a]].K; (k != "L" && k != "RL") || len(r.order)-r.probe.AfterStep >= 3 {
+					continue
+				}
+			}
 			o = append(o, a)
 		}
 	}
@@ -315,7 +327,7 @@ func (r *runner) issue(a int) {
 	r.pc[a]++
 	r.order = append(r.order, a)
 	isAcq := o.K == "L" || o.K == "RL"
-	if !isAcq {
+	if !isAcq && !r.afterPanic {
 		r.m.release(a, o) // takes effect when issued
 	}
 	tg := r.tg
@@ -323,12 +335,31 @@ func (r *runner) issue(a int) {
 	if isAcq {
 		r.m.parked[a] = o
 	}
+	if !isAcq && r.afterPanic {
+		// the release may be parked for ever on the poisoned entity: it takes effect only if it returns
+		for k := 0; k < 4 && r.busy(); k++ {
+			yield()
+		}
+		if r.busy() {
+			waitQuiescent()
+		}
+		if r.actors[a].Busy() {
+			if r.stuck == nil {
+				r.stuck = map[int]bool{}
+			}
+			r.stuck[a] = true
+		} else if p := r.actors[a].TakePanic(); p != "" {
+			r.viol("notheld/rightful-release-panics-after-mismatched-unlock", "after the mismatched %s (which panicked) the rightful holder's %s by actor %d panics: %s - the mismatched call corrupted the bookkeeping", r.probe.Op, o, a, p)
+		} else {
+			r.m.release(a, o)
+		}
+	}
 	r.quiesce(fmt.Sprintf("a%d:%s", a, o))
 	if p := r.actors[a].TakePanic(); p != "" {
 		r.viol("script/unexpected-panic", "well-formed script: %s by actor %d panicked: %s", o, a, p)
 		delete(r.m.parked, a)
 	}
-	if !isAcq && r.actors[a].Busy() {
+	if !isAcq && !r.afterPanic && r.actors[a].Busy() {
 		r.viol("script/unlock-blocked", "%s by actor %d is parked for ever", o, a)
 	}
 }
@@ -379,11 +410,14 @@ func (r *runner) quiesce(what string) {
 	for _, a := range pk {
 		r.parkObs++
 		ev += fmt.Sprintf(" parked a%d:%s", a, r.m.parked[a])
+		if r.afterPanic {
+			continue // liveness cannot be demanded on a poisoned entity
+		}
 		if class, w := r.m.unjustified(a); class != "" {
 			r.viol("lost-wakeup/"+class, "%s (after %s)", w, what)
 		}
 	}
-	if r.useStr {
+	if r.useStr && !r.afterPanic {
 		if mm := reStr.FindStringSubmatch(r.tg.str()); mm != nil {
 			s := r.m.ent(0)
 			wantW := strconv.FormatBool(s.writer != -1)
@@ -406,7 +440,7 @@ func (r *runner) quiesce(what string) {
 
 // finish: a well-formed script must run to completion.
 func (r *runner) finish() {
-	if len(r.bad) > 0 || r.ended {
+	if len(r.bad) > 0 || r.ended || r.afterPanic {
 		return
 	}
 	if !r.done() {
@@ -453,6 +487,25 @@ func (r *runner) probeCandidates() (out []op) {
 			out = append(out, op{"RU", []int{e}}, op{"U", []int{e}}) // nothing held at all
 		}
 	}
+	if r.cfg.Target == "dag" {
+		// multi-id RUnlock of ids none of which is read-locked: held in the other mode / never seen, in both orders
+		var ru []int
+		for _, o := range out {
+			if o.K == "RU" {
+				ru = append(ru, o.E[0])
+			}
+		}
+		for i := range ru {
+			for j := range ru {
+				if i != j {
+					out = append(out, op{"RU", []int{ru[i], ru[j]}})
+				}
+			}
+		}
+		if len(ru) > 0 {
+			out = append(out, op{"RU", []int{ru[0], 7}}, op{"RU", []int{7, ru[0]}}, op{"U", []int{7}}) // 7: an id never seen
+		}
+	}
 	return
 }
 
@@ -473,7 +526,10 @@ func (r *runner) doProbe(o op) {
 	if r.useStr {
 		before = r.tg.str()
 	}
-	free := r.cfg.Target == "dag" && r.m.ent(o.E[0]).writer == -1 && r.m.nReaders(o.E[0]) == 0
+	free := r.cfg.Target == "dag"
+	for _, e := range o.E {
+		free = free && r.m.ent(e).writer == -1 && r.m.nReaders(e) == 0
+	}
 	tg := r.tg
 	intruder.Start(func() { tg.do(o) })
 	for k := 0; k < 4 && (r.busy() || intruder.Busy()); k++ {
@@ -485,8 +541,9 @@ func (r *runner) doProbe(o op) {
 	what := fmt.Sprintf("mismatched %s by an extra goroutine", o)
 	if p := intruder.TakePanic(); p != "" {
 		r.probeOutcome = "panicked"
-		r.ended = true
-		r.trace = append(r.trace, what+" -> panic: "+p+" (accepted; run ends)")
+		r.afterPanic = true
+		r.trace = append(r.trace, what+" -> panic: "+p+" (accepted; the rest of the script continues in safety-only mode with the holders still inside)")
+		r.quiesce(what) // a grant caused by the call is judged by the model
 		return
 	}
 	if intruder.Busy() {
